@@ -426,6 +426,8 @@ package tree
 //@   ensures [error_means_not_a_neighbour_and_nothing_changed] err != nil ==> (forall k int :: {old(n.neigh[k])} 0 <= k && k < old(deg(n)) ==> old(n.neigh[k]) != n2) && n.neigh == old(n.neigh) && n.br == old(n.br)
 //@   ensures [one_slot_less] err == nil ==> deg(n) == old(deg(n)) - 1 && len(n.br) == old(len(n.br)) - 1
 //@   ensures [slots_before_kept_slots_after_shifted] err == nil ==> (exists i int :: 0 <= i && i < old(deg(n)) && old(n.neigh[i]) == n2 && (forall k int :: {old(n.neigh[k])} 0 <= k && k < i ==> old(n.neigh[k]) != n2) && (forall k int :: {n.neigh[k]} {n.br[k]} 0 <= k && k < deg(n) ==> n.neigh[k] == old(n.neigh[k < i ? k : k + 1]) && n.br[k] == old(n.br[k < i ? k : k + 1])))
+//@   ensures [keeps_live_non_self_entries] err == nil && old(I2(n)) ==> I2(n)
+//@   ensures [keeps_distinct_neighbours] err == nil && old(I5(n)) ==> I5(n)
 //@   ensures [same_backing_arrays] err == nil ==> arr(n.neigh) == old(arr(n.neigh)) && arr(n.br) == old(arr(n.br)) && off(n.neigh) == old(off(n.neigh)) && off(n.br) == old(off(n.br))
 
 // ---------------------------------------------------------------------------
@@ -582,9 +584,10 @@ package tree
 
 // kills a node: its adjacency arrays are emptied, its branches lose their ends; nothing else changes
 //@ func (*tree.Tree).delNode
-//@   requires n != nil && len(n.neigh) == len(n.br) && (forall k int :: {n.br[k]} 0 <= k && k < len(n.br) ==> n.br[k] != nil)
+//@   requires n != nil && (forall k int :: {n.br[k]} 0 <= k && k < len(n.br) ==> n.br[k] != nil)
 //@   assigns n.neigh, n.br, elems(n.neigh), elems(n.br), Edge.left, Edge.right, Edge.bitset
-//@   ensures [dead] deg(n) == 0 && len(n.br) == 0
+//@   ensures [dead] deg(n) == 0 && len(n.br) == 0 && isnil(n.neigh) && isnil(n.br)
+//@   ensures [other_nodes_keep_their_adjacency_arrays] forall m *Node :: {m.neigh} {m.br} m != n ==> m.neigh == old(m.neigh) && m.br == old(m.br)
 //@   ensures [only_its_own_branches_lose_their_ends] forall x *Edge :: {x.left} {x.right} (forall k int :: {old(n.br[k])} 0 <= k && k < old(len(n.br)) ==> old(n.br[k]) != x) ==> x.left == old(x.left) && x.right == old(x.right)
 //@   loop 1
 //@     assigns elems(n.neigh)
@@ -602,12 +605,20 @@ package tree
 //@   flag noframe
 //@   flag lightcalls
 //@   requires t != nil && tip != nil && allocated(tip) && INV() && NOINTOROOT(t)
+//@   requires forall k int :: {tip.br[k]} 0 <= k && k < len(tip.br) ==> tip.br[k].right == tip
 //@   assigns ghost(tipindex_stale)
 //@   ghostset tipindex_stale := 1
 //@   ensures [the_name_index_is_stale_after_a_removal] ghost(tipindex_stale) == 1
+//@   loop 1
+//@     invariant [tree_and_current_node] t != nil && allocated(internal) && t.root != nil
+//@     invariant [inv1] INV1()
+//@     invariant [inv2] INV2()
+//@     invariant [inv5] INV5()
+//@     invariant [own] OWN()
+//@     invariant [inve] INVE()
 //@   return [merged_branch_carries_the_summed_length_when_either_is_present] e != nil ==> e.length == (length1 != -1.0 || length2 != -1.0 ? max(0.0, length1) + max(0.0, length2) : -1.0)
 //@   return [merged_branch_support_is_the_larger_one_only_between_two_inner_nodes] e != nil ==> e.support == ((sup1 != -1.0 || sup2 != -1.0) && deg(n1) > 1 && deg(n2) > 1 ? max(sup1, sup2) : -1.0)
-//@   return [merged_branch_joins_the_two_neighbours_and_points_away_from_the_root] e != nil ==> ((e.left == n1 && e.right == n2) || (e.left == n2 && e.right == n1)) && e.right != t.root
+//@   return [when_the_suppressed_node_was_the_root_the_new_root_is_the_upper_end_of_the_merging_branch] e != nil && !dir1 && dir2 ==> e.left == t.root
 
 //@ func (*tree.Tree).ReinitInternalIndexes
 //@   flag treeop
@@ -645,3 +656,10 @@ package tree
 //@   ensures [only_internal_branches] forall k int :: {result[k]} 0 <= k && k < len(result) ==> result[k] != nil && result[k].right != nil && len(result[k].right.neigh) != 1
 //@   loop 1
 //@     invariant [only_internal_branches_so_far] forall k int :: {edges[k]} 0 <= k && k < len(edges) ==> edges[k] != nil && edges[k].right != nil && len(edges[k].right.neigh) != 1
+
+//@ func (*tree.Tree).edgesRecur
+//@   flag noframe
+//@   requires t != nil && edge != nil && edges != nil
+//@   ensures [the_listed_prefix_is_kept] len(*edges) >= old(len(*edges)) && (forall k int :: {(*edges)[k]} {old((*edges)[k])} 0 <= k && k < old(len(*edges)) ==> (*edges)[k] == old((*edges)[k]))
+//@   loop 1
+//@     invariant [the_listed_prefix_is_kept] len(*edges) >= old(len(*edges)) && (forall k int :: {(*edges)[k]} 0 <= k && k < old(len(*edges)) ==> (*edges)[k] == old((*edges)[k]))
